@@ -32,25 +32,9 @@ from scanpipe import T, P, NS, q
 # Genuine defects of the unchanged code found by this check (reported to the integrator, who moves
 # them to known_findings.json or repairs the code).  Keys are per defect site, not per input.
 PENDING_FINDINGS = [
-    ('rename-self',
-     "'a: (rename-to a)' writes shadowed-by=\"a\" on a without a matching shadows attribute"),
     ('vfunc-own-block-overlaid',
      "a virtual method WITH a block of its own (FooBarClass::slot) still receives its invoker's block on top "
      "(_pair_class_virtuals / (virtual) annotation): the invoker's description, Since, ... replace the vfunc's own"),
-    ('since-not-written:alias',
-     "'Since:' on a typedef alias never reaches the GIR: _write_alias does not call _append_version"),
-    ('since-not-written:callback-field',
-     "'Since:' on a callback field (Struct.field block) never reaches the GIR: _write_field omits _append_version "
-     "for fields holding an anonymous callback"),
-    ('crash:emitter-param-compare',
-     "(emitter m) on a signal with exactly one parameter whose method m has one parameter too makes "
-     "IntrospectablePass._introspectable_callable_analysis raise IndexError (method.parameters[idx + 1]); "
-     "no GIR is produced"),
-    ('emitter-param-compare:rejected',
-     "(emitter m) on a signal with N>=2 parameters whose method m has the same return type and the same N "
-     "parameter types is dropped with the warning 'does not have the same type of arguments': the same loop of "
-     "IntrospectablePass._introspectable_callable_analysis compares signal parameter i with method parameter i+1 "
-     "and rejects when they ARE equivalent"),
 ]
 
 GOBJECT_GIR = '''<?xml version="1.0"?>
@@ -637,20 +621,15 @@ KIND_OF_TAG = {'class': 'class', 'interface': 'interface', 'record': 'record', '
 
 
 def expected_presence(b, kind, is_callback_field):
-    """[(what, attr-or-child, value)] the statement promises on the element of kind `kind` that the
-    block documents; `pending` names a known defect site when the unchanged code is known to miss it"""
+    """[(what, attr-or-child, value, pending)] the statement promises on the element of kind `kind` that
+    the block documents; `pending` would name a known defect site (none at present)"""
     exp = []
     if ann_opts(b, 'skip') is not None:
         exp.append(('attr', 'introspectable', '0', None))
     s = b.get('since')
     if s:
         if s[0]:
-            pend = None
-            if kind == 'alias':
-                pend = 'since-not-written:alias'
-            if is_callback_field:
-                pend = 'since-not-written:callback-field'
-            exp.append(('attr', 'version', s[0], pend))
+            exp.append(('attr', 'version', s[0], None))    # every kind, aliases and callback fields included
         if s[1]:
             exp.append(('doc', 'doc-version', s[1], None))
     d = b.get('deprecated')
@@ -695,23 +674,25 @@ def expected_presence(b, kind, is_callback_field):
     return exp
 
 
-def emitter_compatible(spec, b, mname, elems):
-    """does the method `mname` of the signal's class have the signal's return type and parameter types?
+def emitter_status(spec, b, mname, elems):
+    """'compatible': the method `mname` of the signal's class has the signal's return type and parameter
+    types; 'incompatible': it has others; 'no-method': the class has no method of that name.
     (all generated parameters are ints; signals return void unless said otherwise)"""
     t = b.get('target')
     if not t or t[0] != 'sig':
-        return False
+        return 'no-method'
     ty = find_type(spec, t[1])
     sig = next((x for x in (ty or {}).get('sigs', []) if x['name'] == t[2]), None)
     if ty is None or sig is None:
-        return False
+        return 'no-method'
     for f in ty.get('funcs', []):
         e = elems.get('fn:' + f['symbol'])
         if e is None or e['tag'] != 'method' or e['name'] != mname or e.get('container') != spec['ns'] + ty['name']:
             continue
         # the first method of that name is the one the scanner looks at
-        return f.get('ret', 'int') == sig.get('ret', 'void') and f.get('nparams', 0) == sig.get('nparams', 0)
-    return False
+        same = f.get('ret', 'int') == sig.get('ret', 'void') and f.get('nparams', 0) == sig.get('nparams', 0)
+        return 'compatible' if same else 'incompatible'
+    return 'no-method'
 
 
 def wellformed(b):
@@ -784,17 +765,21 @@ def judge_presence(ctx, cnt, spec, real, case_id):
                     any('mismatched' in w and ("'%s'" % b['key']) in w for w in warnings):
                 cnt.hit('presence:outside-rejected-with-warning')
                 continue
-            if name == 'emitter' and got != value and \
-                    any('Emitter method' in w and ('::%s ' % b['key'].split('::', 1)[-1]) in w for w in warnings):
-                if emitter_compatible(spec, b, value, elems):
-                    cnt.hit('presence:emitter-compatible-but-rejected')
-                    ctx.report_failure('emitter-param-compare:rejected',
-                                       'block %r: (emitter %s) names a method with the return type and the parameters '
-                                       'of the signal, yet it is refused with a warning and the GIR has emitter=%r (%s)'
-                                       % (b['key'], value, got, addr), {'kind': 'case', 'spec': spec})
-                else:
-                    cnt.hit('presence:outside-rejected-with-warning')
-                continue
+            if name == 'emitter':
+                # the scanner validates the named method against the signal: with the signal's return type and
+                # parameter types the attribute must be written; with other ones it must be refused with a
+                # diagnostic naming the signal; a name that is no method of the class is kept verbatim
+                status = emitter_status(spec, b, value, elems)
+                warned = any('Emitter method' in w and ('::%s ' % b['key'].split('::', 1)[-1]) in w for w in warnings)
+                cnt.hit('presence:emitter-' + status)
+                if status == 'incompatible':
+                    if got is not None or not warned:
+                        ctx.report_failure('emitter-incompatible:%s:%s' % (case_id, b['key']),
+                                           'block %r: (emitter %s) names a method whose return type or parameters '
+                                           'differ from the signal: expected a warning and no emitter attribute; GIR '
+                                           'has emitter=%r, warned=%r (%s)' % (b['key'], value, got, warned, addr),
+                                           {'kind': 'case', 'spec': spec})
+                    continue
             cnt.hit('presence:checked')
             cnt.hit('presence:' + name)
             if got != value:
@@ -885,10 +870,7 @@ def judge_rename(ctx, cnt, spec, real, case_id):
                 srcs = [s for s, t in intents.items() if t == sym
                         and any(c['name'] == sb(e) and sh(c) == e['name'] for c in fns.get(s, []))]
                 if len(srcs) != 1:
-                    if sym in intents and intents[sym] == sym:
-                        key = 'rename-self'
-                    else:
-                        key = 'rename-pair:%s:%s' % (case_id, sym)
+                    key = 'rename-pair:%s:%s' % (case_id, sym)
                     ctx.report_failure(key, '%s is written shadowed-by=%r but no function named %r that was asked to '
                                        'rename to it is written shadows=%r' % (sym, sb(e), sb(e), e['name']),
                                        {'kind': 'case', 'spec': spec})
@@ -1067,8 +1049,6 @@ def classify_crash(spec, crash):
     if not all(wellformed(b) for b in spec['blocks']):
         return 'outside-malformed'
     w = ' '.join(crash.where)
-    if crash.type == 'IndexError' and '_introspectable_callable_analysis' in w:
-        return 'crash:emitter-param-compare'
     # syntactically valid annotations naming a target of the wrong kind: the statement makes no promise
     if crash.type == 'AttributeError' and ('_apply_annotation_rename_to' in w or '_pass_read_annotations2' in w):
         return 'outside-wrong-kind-target'
@@ -1249,16 +1229,13 @@ def gen_spec(rng, size=None):
                 add('%s:%s' % (cname, p['name']), ('prop', t['name'], p['name']), 'property', mnames)
         for s in t.get('sigs', []):
             if rng.random() < 0.5:
-                # emitters: methods of the class, with the signal's signature or not (another return type or
-                # parameter count is refused with a warning).  One parameter on both sides is the known crash
-                # site (the whole namespace is lost then), so that combination is generated rarely.
+                # emitters: methods of the class, with the signal's signature (void, same parameters) or not
+                # (another return type or parameter count is refused with a warning)
                 cands = [f['symbol'][len(us):] for f in t.get('funcs', [])
-                         if f['role'] == 'method' and f['symbol'].startswith(us)
-                         and not (f.get('ret', 'int') == 'void' and f.get('nparams', 0) == 1
-                                  and s.get('nparams', 0) == 1 and rng.random() < 0.9)]
+                         if f['role'] == 'method' and f['symbol'].startswith(us)]
                 voids = [f['symbol'][len(us):] for f in t.get('funcs', [])
                          if f['role'] == 'method' and f['symbol'].startswith(us) and f.get('ret', 'int') == 'void'
-                         and f.get('nparams', 0) == s.get('nparams', 0) != 1]
+                         and f.get('nparams', 0) == s.get('nparams', 0)]
                 add('%s::%s' % (cname, s['name']), ('sig', t['name'], s['name']), 'signal',
                     (voids if voids and rng.random() < 0.6 else cands) or ['nonesuch'])
         sname = cname + ('Class' if k == 'class' else 'Interface')
@@ -1583,8 +1560,7 @@ def run(ctx):
         if 'crash' in out:
             cr = out['crash']
             where = ' '.join(cr['where'])
-            if cr['class'] == 'crash:emitter-param-compare' or \
-                    (cr['type'] == 'AttributeError' and '_apply_annotation_rename_to' in where):
+            if cr['type'] == 'AttributeError' and '_apply_annotation_rename_to' in where:
                 cnt.hit('correspondence:crash-outside-model')
                 continue
             agree = mres.get('error') == cr['type'] if isinstance(mres, dict) else False
@@ -1655,7 +1631,8 @@ def run(ctx):
         'holds --, on children of such an element, or where the blockless scan already has it; (skip) itself must '
         'always arrive (presence) and the re-scan without the block must not change anything else (absence)',
         "IntrospectablePass's validation of (emitter) against the method's signature is not modelled (outside the "
-        "anchors); the statement oracle judges it: a refusal is accepted only when return type or parameters differ",
+        "anchors); the statement oracle judges it: with the signal's return type and parameter types the emitter "
+        "attribute is required, with other ones a warning and no attribute, an unknown method name is kept verbatim",
         'a function the scanner writes twice (moved-to original + copy inside a type) is outside the model comparison; '
         'the rename oracle looks for the shadows/shadowed-by pair among all copies',
         'annotations given with the wrong number of options are outside the statement (the comment parser warns); the '
